@@ -110,3 +110,46 @@ func VfC04_Redirect() {
 		}
 	}
 }
+
+// VfC04_RedirectToBusyNode: the node named by a redirection is reachable but slow: its connection's
+// queue is full when the redirection arrives. The redirected command (and ASKING before it) still
+// reaches that node once the queue drains; the client is not answered with an error meanwhile.
+func VfC04_RedirectToBusyNode() {
+	a, b := "10.0.0.1:7000", "10.0.0.2:7000"
+	u, clients := vfNewUpstream(nil, a, b)
+	target := clients[b]
+	nfill := cap(target.pendingReqs)
+	for i := 0; i < nfill; i++ {
+		target.pendingReqs <- newSimpleRequest(newStringArray("ping"))
+	}
+	var arrived []*simpleRequest
+	stop := make(chan struct{})
+	go func() { // the slow node takes requests again as soon as the proxy waits for it
+		for {
+			select {
+			case r := <-target.pendingReqs:
+				arrived = append(arrived, r)
+			case <-stop:
+				return
+			}
+		}
+	}()
+	isAsk := nd.Bool("ask")
+	word := "MOVED"
+	if isAsk {
+		word = "ASK"
+	}
+	req := newSimpleRequest(newArray(*newBulkString("set"), *newBulkString("k"), *newBulkString("v")))
+	nd.PanicLabel("redirection")
+	u.handleRedirection(req, newError(word+" 42 "+b))
+	nd.Quiesce()
+	nd.Assert(!vfDone(req.done), "a command redirected to a reachable but busy node is not answered with an error")
+	n := len(arrived)
+	nd.Assert(n >= nfill+1 && arrived[n-1] == req, "the redirected command reaches the named node once its queue drains")
+	if isAsk && n >= 2 {
+		ab := arrived[n-2].Body().Array
+		nd.Assert(len(ab) == 1 && vfBytesEq(vfLowerASCII(ab[0].Text), []byte("asking")), "ASKING reaches it right before the command")
+	}
+	nd.Cover("busy-node")
+	close(stop)
+}
